@@ -194,12 +194,16 @@ def report(ctx, pairs, pid_filter=None):
 def run(ctx):
     ev = ctx.ev
     rng = env.rng("c08")
-    r = tlc.model_check("Lifecycle", design_cfg("Lifecycle_q.cfg"), timeout=900, tag="LC-q")
-    ctx.tlc_design("Lifecycle: 2 connections, 1 reset, 2 network changes, 1 runtime error, exit; no suspension", r)
-    r = tlc.model_check("Lifecycle", design_cfg("Lifecycle_s1.cfg", **({} if ctx.quick else {"MaxSusp": 2})),
-                        timeout=3000, tag="LC-s1", heap="24g")
-    ctx.tlc_design("Lifecycle with client-handler suspension (known-finding transitions flagged)", r)
-    runs = run_scenarios(rng, ctx.quick)
+    # the two design runs are external processes: they run while the scenarios execute in this one
+    from concurrent.futures import ThreadPoolExecutor
+    with ThreadPoolExecutor(2) as pool:
+        fq = pool.submit(tlc.model_check, "Lifecycle", design_cfg("Lifecycle_q.cfg"), timeout=900, tag="LC-q", workers=8)
+        fs = pool.submit(tlc.model_check, "Lifecycle",
+                         design_cfg("Lifecycle_s1.cfg", **({"MaxSockFail": 0, "MaxNet": 1} if ctx.quick else {"MaxSusp": 2, "MaxSockFail": 0})),
+                         timeout=3000, tag="LC-s1", heap="24g", workers=8)
+        runs = run_scenarios(rng, ctx.quick)
+        ctx.tlc_design("Lifecycle: 2 connections, 1 reset, 2 network changes, 1 runtime error, 1 refused endpoint, exit; no suspension", fq.result())
+        ctx.tlc_design("Lifecycle with client-handler suspension (known-finding transitions flagged)", fs.result())
     pairs = validate_runs(ctx, runs, "c08")
     report(ctx, pairs)
     for r_ in runs:
